@@ -222,6 +222,14 @@ def cases(rng: random.Random, tier: str):
     yield from f19_corpus()
     yield from directed_registry_cases(rng, 10 if tier == "quick" else 200)
     yield from takeover_cases(rng, 6 if tier == "quick" else 100)
+    # operations that fail part-way (a replace() rejected by the class' own validation AFTER the new node was registered,
+    # a transform that raises later): "each node that is still referenced and has not itself been detached or replaced away
+    # is returned by lookup under its id" also afterwards -- the directed fail-part-way scenarios of C10, registry part
+    from props.c10 import directed_cases as _c10_directed
+    for c in _c10_directed(rng, 8 if tier == "quick" else 100):
+        if c.kind in ("directed:late-failing-replace", "directed:falsy-twin"):
+            c.sig = "registry|" + c.sig
+            yield c
     n = 150 if tier == "quick" else 4000
     for _ in range(n):
         size = rng.choice([8, 8, 8, 2, 2, 1])
